@@ -40,6 +40,7 @@ func init() {
 			return checkC02(nil, d.Src)
 		},
 		Watchdog:      60 * time.Second,
+		Resumable:     true,
 		DeadlineQuick: 5 * time.Minute, DeadlineThorough: 25 * time.Minute,
 		Vacuity: func(m *fw.Result) string {
 			if m.Nontrivial < 20000 || len(m.Outcomes) < 8 {
